@@ -241,6 +241,20 @@ func session(kind int, id int) (obs []string, late func() []string, err error) {
 				if e == nil {
 					e = fw.Flush()
 				}
+			} else if kind%3 == 1 && sz >= 100 {
+				// a frame put together by hand: header, then the payload through the masking writer in
+				// pieces whose sizes sit on and around the classes of the shared byte pool
+				mask := [4]byte{byte(kind), byte(mi), 0x5a, byte(sz)}
+				e = ws.WriteHeader(ca, ws.Header{Fin: true, OpCode: ws.OpBinary, Masked: true, Mask: mask, Length: int64(sz)})
+				cw := wsutil.NewCipherWriter(ca, mask)
+				for off, ci := 0, 0; e == nil && off < sz; ci++ {
+					k := []int{128, 5, 3, 64, 1, 127, 7, 129, 2, 256, 4, 65}[ci%12]
+					if k > sz-off {
+						k = sz - off
+					}
+					_, e = cw.Write(msg[off : off+k])
+					off += k
+				}
 			} else {
 				_, e = w.Write(msg)
 			}
@@ -356,6 +370,12 @@ func c19(c *ctx) {
 			continue
 		}
 		solo[k] = append(o, late()...)
+		for _, x := range solo[k] {
+			if x == "MISMATCH" { // an echo that is not the message sent
+				soloFailed = append(soloFailed, fmt.Sprintf("solo session %d: echo differs from the message sent", k))
+				break
+			}
+		}
 	}
 	n := 0
 	if len(soloFailed) > 0 {
